@@ -252,6 +252,15 @@ def small_games(ctx, I, n_cases, budget):
             exprs = [{"eq": [rng.randrange(n_units), (0 if rng.random() < 0.4 else 1)]} for _ in range(rng.randint(2, 6))]
             exprs[0] = {"eq": [exprs[0]["eq"][0], 0]}
         table = tables.rand_table(rng, exprs, n_units, p_fail=0.2)
+        mean = Fraction(1000)
+        if it % 5 == 1:
+            # every coalition scores inside the truncation band of the mean score, over more units than the default number of truncation steps: the runs below
+            # are configured as untruncated, so the identity must still hold (a silently truncated walk loses the later units' marginals)
+            import spec as _spec
+            n_units = rng.randint(7, 8)
+            exprs = [{"eq": [u, 1]} for u in range(n_units)]
+            mean = Fraction(10)
+            table = {tables.rows_present(exprs, a): mean + Fraction(rng.randrange(-12, 13), 16) for a in _spec.assignments(n_units)}
         null = Fraction(rng.randrange(-16, 17), 4)
         prov, _, _ = make_prov(I, exprs, n_units)
         n_rows = len(exprs)
@@ -261,8 +270,8 @@ def small_games(ctx, I, n_cases, budget):
         yv = np.zeros(1, dtype=int)
         v_all = tables.value_of(table, tables.rows_present(exprs, [1] * n_units), null)
         v_none = tables.value_of(table, tables.rows_present(exprs, [0] * n_units), null)
-        for method in ("bruteforce", "montecarlo", "montecarlo+budget"):
-            util = tables.make_table_utility(I, table, null, mean=Fraction(1000))
+        for method in (("bruteforce", "montecarlo", "montecarlo+budget") if n_units <= 6 else ("montecarlo", "montecarlo+budget")):
+            util = tables.make_table_utility(I, table, null, mean=mean)
             kw = dict(mc_iterations=rng.randint(1, 12), mc_timeout=0, mc_truncation_steps=0, seed=rng.randrange(1000)) if method != "bruteforce" else {}
             clock = None
             if method == "montecarlo+budget":
@@ -272,7 +281,8 @@ def small_games(ctx, I, n_cases, budget):
                 kw["mc_timeout"] = 5
                 expire_after = rng.randint(0, kw["mc_iterations"])
                 clock = [100] + [100 + (6 if i >= expire_after else rng.choice([0, 1, 5])) for i in range(kw["mc_iterations"] + 2)]
-            case = dict(method=method, nUnits=n_units, exprs=exprs, table=tables.table_json(table), null=str(null), clock=clock, **kw)
+            case = dict(method=method, nUnits=n_units, exprs=exprs, table=(tables.table_json(table) if n_units <= 6 else "2^%d values within 3/4 of the mean score" % n_units),
+                        null=str(null), mean=str(mean), clock=clock, **kw)
             try:
                 imp = I["imp"].ShapleyImportance(method=method.split("+")[0], utility=util, **kw)
                 if clock is not None:
